@@ -20,18 +20,6 @@ Definition runner (r : nat) (f : frame) : bool :=
   | _ => false
   end.
 
-Fixpoint count (p : frame -> bool) (fr : list frame) : nat :=
-  match fr with
-  | [] => 0
-  | f :: t => (if p f then 1 else 0) + count p t
-  end.
-
-Lemma count_app : forall p a b, count p (a ++ b) = count p a + count p b.
-Proof. induction a as [|h t IH]; intros b; simpl; [reflexivity | rewrite IH; lia]. Qed.
-
-Lemma count_perm : forall p a b, Permutation a b -> count p a = count p b.
-Proof. intros p a b P. induction P; simpl; lia. Qed.
-
 Lemma count_exhausted : forall p d, (forall f, exhausted f = true -> p f = false) -> forallb exhausted d = true -> count p d = 0.
 Proof.
   intros p d Hp. induction d as [|h t IH]; simpl; intros H; [reflexivity|].
@@ -92,18 +80,28 @@ Proof.
   split; [assumption|]. intros St. specialize (H2 St). lia.
 Qed.
 
-Lemma unwind_counts : forall r0 stk cs below,
-  unwind r0 stk = Some (cs, below) ->
-  forall r, count (anchor r) stk = b2n (Nat.eqb r r0) + count (anchor r) below /\
-            count (runner r) stk = b2n (Nat.eqb r r0) + count (runner r) below.
+Lemma rels_count : forall p cs0, (forall m, p (FRelEnter m) = false) -> count p (concat (map (fun c0 => [FRelEnter c0]) cs0)) = 0.
+Proof. intros p cs0 Hp. induction cs0 as [|h t IH]; simpl; [reflexivity|]. rewrite Hp, IH. reflexivity. Qed.
+
+Lemma do_fail_mutex : forall s r stk retry s1 st sp others F0,
+  do_fail s r stk retry = Some (s1, st, sp) ->
+  (forall r', count (anchor r') F0 = count (anchor r') (stk ++ others)) ->
+  (forall r', count (runner r') F0 = count (runner r') (stk ++ others)) ->
+  mutex_on (s_rrs s) F0 -> mutex_on (s_rrs s1) (st ++ others ++ concat sp).
 Proof.
-  induction stk as [|h t IH]; simpl; intros cs below H r; [discriminate|].
-  destruct h; try discriminate.
-  - destruct (Nat.eqb r0 r1) eqn:E; [|discriminate]. simpl. eapply IH; eauto.
-  - destruct (Nat.eqb r0 r1) eqn:E; [|discriminate].
-    destruct (unwind r0 t) as [[cs' b']|] eqn:U; [|discriminate]. inversion H; subst. simpl. eapply IH; eauto.
-  - destruct (Nat.eqb r0 r1) eqn:E; [|discriminate]. inversion H; subst. apply Nat.eqb_eq in E. subst r1. simpl.
-    unfold b2n. destruct (Nat.eqb r r0); split; reflexivity.
+  intros s r stk retry s1 st sp others F0 H Ha Hr Inv.
+  destruct (do_fail_spec _ _ _ _ _ _ _ H) as [cs [ks [below [term [y [U [N [Sl [R [Y1 [Y2 [Y3 [Y4 [Y5 [Y6 [Y7 [Y8 T]]]]]]]]]]]]]]]]].
+  destruct (unwind_split _ _ _ _ _ _ U) as [d [l [E [Fd [L _]]]]].
+  assert (Da : forall r', count (anchor r') d = 0) by (intros r'; apply (count_zero_forall _ unw_kind); [intros f Hf; destruct f; simpl in *; try discriminate; reflexivity | exact Fd]).
+  assert (Dr : forall r', count (runner r') d = 0) by (intros r'; apply (count_zero_forall _ unw_kind); [intros f Hf; destruct f; simpl in *; try discriminate; reflexivity | exact Fd]).
+  rewrite R. eapply mutex_on_setl; [split; [rewrite Y1 | rewrite Y3]; reflexivity | | | exact Inv]; intros r';
+    rewrite ?Ha, ?Hr, E; rewrite ?count_app; simpl; rewrite ?count_app, ?Da, ?Dr;
+    destruct term as [jid|]; simpl in L.
+  - subst l. destruct T as [-> [-> _]]. simpl. rewrite ?count_app, rels_count by reflexivity. simpl. lia.
+  - destruct L as [c ->]. destruct T as [-> [_ [[_ [-> _]]|[_ [-> _]]]]]; simpl; rewrite ?count_app, ?concat_app, ?count_app, rels_count by reflexivity; simpl; lia.
+  - subst l. destruct T as [-> [-> _]]. simpl. rewrite ?count_app, rels_count by reflexivity. simpl. lia.
+  - destruct L as [c ->]. destruct T as [-> [_ [[_ [-> _]]|[_ [-> _]]]]]; simpl; rewrite ?count_app, ?concat_app, ?count_app, rels_count by reflexivity; simpl;
+      destruct (Nat.eqb r' r); simpl; lia.
 Qed.
 
 Lemma do_add_out_rrs : forall s n to s1 sp, do_add_out s n to = Some (s1, sp) ->
@@ -201,24 +199,19 @@ Proof.
     destruct p as [|o q]; [discriminate|].
     assert (Fail : forall retry, do_fail s r (FScript r c q :: rest) retry = Some (s1, st, sp) ->
                    mutex_on (s_rrs s1) (st ++ others ++ concat sp)).
-    { intros retry HF. unfold do_fail in HF.
-      destruct (unwind r (FScript r c q :: rest)) as [[cs below]|] eqn:U; [|discriminate].
-      assert (UC := unwind_counts _ _ _ _ U).
-      assert (RC : forall p cs0, (forall m, p (FRelEnter m) = false) -> count p (concat (map (fun c0 => [FRelEnter c0]) cs0)) = 0).
-      { intros p cs0 Hp. induction cs0 as [|h t IH]; simpl; [reflexivity|]. rewrite Hp, IH. reflexivity. }
-      destruct retry; inversion HF; subst; clear HF; simpl;
-        (eapply mutex_on_setl; [split; reflexivity | | | exact Inv]); intros r'; destruct (UC r') as [U1 U2];
-        simpl in U1, U2; simpl; rewrite ?count_app, ?concat_app, ?count_app, ?RC by reflexivity; simpl;
-        unfold b2n in *; destruct (Nat.eqb r' r); simpl in *; try lia. }
+    { intros retry HF. eapply do_fail_mutex; [exact HF | | | exact Inv]; intros r'; reflexivity. }
     destruct o.
     + inversion H; subst; clear H; simpl; plain_leaf Inv.
     + destruct (Nat.eqb arg 0); [|unfold alloc in H]; inversion H; subst; clear H; simpl; plain_leaf Inv.
     + destruct (Nat.eqb arg 0).
-      * destruct (cache_get (r_cache (getr s r)) key) as [child|]; [destruct (Nat.eqb child c); [discriminate|]|]; inversion H; subst; clear H; simpl; plain_leaf Inv.
+      * destruct (memb key (r_keys (getr s r))); [discriminate|]. inversion H; subst; clear H; simpl. rr_leaf Inv.
       * destruct (Nat.eqb arg 2); [inversion H; subst; clear H; simpl; plain_leaf Inv|].
         destruct (r_cancel (getr s r)); [|discriminate]. eapply Fail; eauto.
     + destruct (Nat.eqb arg 0); [inversion H; subst; clear H; simpl; plain_leaf Inv | eapply Fail; eauto].
     + destruct (Nat.eqb arg 0); [inversion H; subst; clear H; simpl; plain_leaf Inv | eapply Fail; eauto].
+    + (* OPar *)
+      inversion H; subst; clear H. simpl.
+      eapply mutex_on_frames; [| |exact Inv]; intros r'; cnt; rewrite branch_tasks_count by reflexivity; lia.
   - (* FDepAdd *)
     destruct (do_add_out s res c) as [[s2 sp2]|] eqn:A; [|discriminate]. inversion H; subst; clear H.
     destruct (do_add_out_rrs _ _ _ _ _ A) as [R C]. rewrite R.
@@ -235,6 +228,17 @@ Proof.
     destruct (do_add_out s child parent) as [[s2 sp2]|] eqn:A; [|discriminate]. inversion H; subst; clear H.
     destruct (do_add_out_rrs _ _ _ _ _ A) as [R C]. simpl. rewrite R.
     eapply mutex_on_frames; [| |exact Inv]; intros r'; cnt; rewrite C by reflexivity; lia.
+  - (* FCacheGet *)
+    destruct (cache_get (r_cache (getr s r)) key) as [child|]; [destruct (Nat.eqb child c); [discriminate|]|];
+      inversion H; subst; clear H; simpl; plain_leaf Inv.
+  - (* FKeyUnlock *) inversion H; subst; clear H. simpl. rr_leaf Inv.
+  - (* FJoin *)
+    destruct (nth jid (s_joins s) (0, false)) as [nb failed]. destruct (Nat.eqb nb 0); [|discriminate].
+    destruct failed; [|inversion H; subst; clear H; plain_leaf Inv].
+    eapply do_fail_mutex; [exact H | | | exact Inv]; intros r'; reflexivity.
+  - (* FBranchBegin *) inversion H; subst; clear H. plain_leaf Inv.
+  - (* FBranchEnd *)
+    destruct (nth jid (s_joins s) (0, false)) as [nb failed]. inversion H; subst; clear H. simpl. plain_leaf Inv.
   - (* FRunEnd *)
     inversion H; subst; clear H. simpl.
     eapply mutex_on_setl; [split; reflexivity | | | exact Inv]; intros r'; cnt;
@@ -355,8 +359,9 @@ Qed.
 Lemma do_fail_rrs : forall s r stk b s1 st sp, do_fail s r stk b = Some (s1, st, sp) ->
   exists y, s_rrs s1 = setl (s_rrs s) r y /\ r_stop y = r_stop (getr s r).
 Proof.
-  intros s r stk b s1 st sp H. unfold do_fail in H. destruct (unwind r stk) as [[cs below]|]; [|discriminate].
-  destruct b; inversion H; subst; clear H; simpl; eexists; split; reflexivity.
+  intros s r stk b s1 st sp H.
+  destruct (do_fail_spec _ _ _ _ _ _ _ H) as [cs [ks [below [term [y [U [N [Sl [R [Y1 [Y2 [Y3 _]]]]]]]]]]]].
+  exists y. split; assumption.
 Qed.
 
 Lemma step_top_stop : forall s f rest arg s1 st sp r,
